@@ -883,8 +883,9 @@ func Harness_C09_stale() {
 	if stale && (what == 0 || what == 3) {
 		ok, e := h1.UpToDate()
 		VerifAssert(e == nil && ok, "handle-not-refreshed-after-failed-add")
+		nui := h1.NextUpdateIndex()
 		if !emptied {
-			VerifAssert(h1.NextUpdateIndex() > maxCommitted, "next-update-index-not-beyond-committed")
+			VerifAssert(nui > maxCommitted, "next-update-index-not-beyond-committed")
 		}
 		VerifAssert(addTxn(h1, 8, true) == nil, "retry-after-refresh-failed")
 		VerifCover("retried")
@@ -893,6 +894,11 @@ func Harness_C09_stale() {
 		if fin != nil {
 			got := snapshot(fin, "final")
 			VerifAssert(got.refs["p8"] == 8 && got.refs["s"] == 8, "retry-not-committed")
+		}
+		if emptied {
+			// update indices 1 and 2 were committed (the ref and its deletion) before the
+			// compaction emptied tables.list; checked last so that it masks nothing else
+			VerifAssert(nui > 2, "update-index-restarts-after-stack-emptied")
 		}
 	}
 	VerifCover("done")
@@ -996,6 +1002,56 @@ func Harness_C10_reader() {
 	fin := mustOpen(dir, cfg, "open-after-reader-and-writer")
 	if fin != nil {
 		VerifAssert(snapshot(fin, "final").ok, "listed-table-unreadable")
+	}
+	VerifCover("done")
+}
+
+// Harness_C10_behind: a handle that is several tables behind reloads while another process compacts tables the handle has never opened; the view it ends up with is still one committed list.
+// bounds: reader R opened on a stack of 1 table; the stack then grows to 4 tables; R reloads and scans while a writer runs compactRange(1,2) (the tables new to R disappear between R reading the list and opening them, the top table survives), compactRange(2,3), or CompactAll; every schedule with <= 2 preemptions
+// covers: done
+func Harness_C10_behind() {
+	cfg := stackCfg(0)
+	dir := VerifTempDir()
+	const nInit = 4
+	VerifMonitor("list")
+	seedStack(dir, cfg, 1)
+	VerifAs(1)
+	r := mustOpen(dir, cfg, "open-reader")
+	VerifAs(2)
+	w := mustOpen(dir, cfg, "open-writer")
+	if w != nil {
+		for i := 1; i < nInit; i++ {
+			VerifAssert(addTxn(w, byte(i), true) == nil, "seed-add")
+		}
+	}
+	VerifAs(0)
+	if r == nil || w == nil {
+		return
+	}
+	wop := VerifChoose(3)
+	VerifSpawn(func() {
+		err := r.reload(true)
+		_ = err
+		s := snapshot(r, "reader-after-reload")
+		// R either still shows the one table it had, or all four transactions
+		old := s.ok && len(s.refs) == 2 && s.refs["s"] == 0 && s.logs == 1
+		VerifAssert(old || consistentSnapshot(s, nInit, 7), "reader-sees-mixed-or-broken-state")
+	})
+	VerifSpawn(func() {
+		switch wop {
+		case 0:
+			w.compactRange(1, 2, nil)
+		case 1:
+			w.compactRange(2, 3, nil)
+		case 2:
+			w.CompactAll(nil)
+		}
+	})
+	VerifRun(2)
+	VerifAs(0)
+	fin := mustOpen(dir, cfg, "open-after-reader-and-writer")
+	if fin != nil {
+		VerifAssert(consistentSnapshot(snapshot(fin, "final"), nInit, 7), "final-state-wrong")
 	}
 	VerifCover("done")
 }
